@@ -292,6 +292,12 @@ func (p *Packer) packWalkFn(root, src, dst string, tarW *tar.Writer, meta *Meta,
 				return filepath.Walk(resolved.absTarget, p.packWalkFn(root, resolved.absTarget, path, tarW, meta, ignoreRules))
 			}
 
+			// Like special files inside the source directory, a fifo, socket
+			// or device behind the link is left out; opening it could block.
+			if !resolved.info.Mode().IsRegular() {
+				return nil
+			}
+
 			// Dereference this symlink by updating the header with the target file
 			// details and set writeBody to true so the body will be written.
 			header.Typeflag = tar.TypeReg
